@@ -6,13 +6,13 @@ require (
 	github.com/edutko/cafegopher v0.1.0
 	github.com/edutko/decipher v0.0.0
 	github.com/edutko/jks-go v0.4.1
+	github.com/edutko/putty-go v0.1.0
 	github.com/google/uuid v1.6.0
 	github.com/jfrog/go-rpm v1.0.1
 	golang.org/x/crypto v0.28.0
 )
 
 require (
-	github.com/edutko/putty-go v0.1.0 // indirect
 	golang.org/x/sys v0.26.0 // indirect
 	software.sslmate.com/src/go-pkcs12 v0.5.0 // indirect
 )
